@@ -27,6 +27,39 @@ def select_units(specs, units, pid):
     return sel
 
 
+def policy_units(repo, specs, units, pid, sel):
+    """contract units that serve pid only through the access-policy obligations the engine generates in every method
+    of the policy class (specs: ACCESS_POLICY['props']); of these units only the obligations of kind 'policy' count"""
+    conf = specs.consts.get('ACCESS_POLICY', (None, None))[1]
+    if not conf or pid not in conf.get('props', []):
+        return []
+    have = set(R.unit_label(u) for u in sel)
+    out = []
+    for u in units:
+        if u[0] != 'contract' or R.unit_label(u) in have:
+            continue
+        found = repo.function(u[1].split('#')[0])
+        if found is None or found[1] is None:
+            continue
+        if conf['class'] in repo.mro(found[1].qname):
+            out.append(u)
+    return out
+
+
+def restrict_to_policy(res, labels):
+    """keep only the policy obligations (and the vacuity canaries) of the units in `labels`; units without any are dropped"""
+    out = []
+    for r in res:
+        if r['label'] in labels:
+            if r['status'] == 'ok':
+                obls = [o for o in r['obligations'] if o['kind'] in ('policy', 'canary')]
+                if not any(o['kind'] == 'policy' for o in obls):
+                    continue
+                r = dict(r, obligations=obls)
+        out.append(r)
+    return out
+
+
 def load_known(path=None):
     path = path or os.path.join(VERIF, 'known_findings.json')
     if not os.path.exists(path):
@@ -112,7 +145,9 @@ def main(argv):
     if not contract_units:
         print('checker error: no contract serves %s' % pid)
         return 3
-    res, ncached = run_cached(repo, specs, sel, jobs, timeout_ms, repo_root, tier)
+    pol = policy_units(repo, specs, units, pid, sel)
+    res, ncached = run_cached(repo, specs, sel + pol, jobs, timeout_ms, repo_root, tier)
+    res = restrict_to_policy(res, set(R.unit_label(u) for u in pol))
     known = load_known()
     ledger = load_ledger().get(pid)
     code, report = evaluate(pid, res, known, ledger, repo_root, tier)
@@ -364,19 +399,25 @@ def write_evidence(pid, tier, seed, res, report, wall, specs, repo_root):
         json.dump(ev, f, indent=1)
 
 
+def front_repo_raw(repo_root):
+    from . import front
+    return front.Repo(repo_root)
+
+
 def do_ledger(repo_root, jobs):
     repo, specs = R.load(repo_root)
     units = R.list_units(specs)
-    res = R.run_units(repo, specs, units, jobs, 10000)
+    res, _ = run_cached(repo, specs, units, jobs, 10000, repo_root, 'quick')
     by_label = {r['label']: r for r in res}
     ledger = {}
     for pid in ALL_PROPS:
         sel = select_units(specs, units, pid)
         if not any(u[0] == 'contract' for u in sel):
             continue
+        pol = policy_units(repo, specs, units, pid, sel)
+        pol_res = restrict_to_policy([by_label[R.unit_label(u)] for u in pol], set(R.unit_label(u) for u in pol))
         ent = {}
-        for u in sel:
-            r = by_label[R.unit_label(u)]
+        for r in [by_label[R.unit_label(u)] for u in sel] + pol_res:
             keys = []
             real = [o for o in r['obligations'] if o['kind'] != 'canary']
             ent[r['label']] = {'hash': r.get('fn_hash'), 'proved': keys,
@@ -388,8 +429,10 @@ def do_ledger(repo_root, jobs):
                     if o['name'] not in keys:
                         keys.append(o['name'])
         ledger[pid] = ent
+    from . import alpha
+    ledger['$alpha'] = alpha.baseline(front_repo_raw(repo_root))
     json.dump(ledger, open(os.path.join(VERIF, 'ledger.json'), 'w'), indent=0)
-    print('ledger written:', {k: sum(len(e['proved']) for e in v.values()) for k, v in ledger.items()})
+    print('ledger written:', {k: sum(len(e['proved']) for e in v.values()) for k, v in ledger.items() if not k.startswith('$')})
     return 0
 
 
